@@ -186,6 +186,16 @@ func c05(c *core.Ctx, r *core.Report) {
 		r.Count("goroutine roots", roots)
 		// (b) region in Do between Start and Stop of the progress runner
 		var startCall, stopCall ssa.CallInstruction
+		// the function that holds the call starting the progress runner: Do, or a helper the tail of Do was moved to
+		// (what Do defers runs after that helper returned, i.e. after Stop)
+		if f.loop != nil {
+			for _, g := range an.GoTargetOf(c.AllFuncs, f.loop) {
+				starter := g.Parent()
+				for _, e := range an.FlatCalls(do, flatDepth, func(_ ssa.CallInstruction, t *ssa.Function) bool { return t == starter }) {
+					do = e.Instr.Parent()
+				}
+			}
+		}
 		for _, call := range an.AllCalls(do) {
 			t := an.Callee(call)
 			if t == nil {
